@@ -468,7 +468,13 @@ class Array:
             except StopIteration:  # nothing to append
                 return
             array = self._checkarrayforappend(firstarray)
-            array.tofile(str(self._datapath))
+            try:
+                array.tofile(str(self._datapath))
+            except Exception as exception:
+                # remove what may have been partially written
+                os.truncate(self._datapath, 0)
+                raise AppendDataError(f"{exception}\nAppending of data did "
+                                      f"not succeed. Array is still empty.")
             self._update_len(lenincrease=array.shape[0])
         with self._open_array() as (v, fd):
             oldshape = v.shape
